@@ -103,6 +103,8 @@ class SchedHarness:
                                                             backend=self.backend)
         try:
             self.res['env'] = sched.schedule(env=self.env)
+            for _ in range(self.cfg.get('calls', 1) - 1):       # the same Scheduler / backend object used again
+                self.res['env'] = sched.schedule(env=self.env)
         except Exception as exc:  # pylint: disable=broad-except
             self.res['exc'] = type(exc).__name__
         rtm = self.rt
@@ -173,7 +175,7 @@ def oracle(exe, cfg):
             bad.append((f'C03|alive-at-return|{_shape(cfg)}', f"threads alive when schedule() came back: {har.res['alive']}"))
         que = har.res.get('queue')
         # the stop sentinels are never task_done()'d: `unfinished` legitimately equals their number
-        if que is not None and (que[0] != 0 or que[1] > cfg['workers']):
+        if que is not None and (que[0] != 0 or que[1] > cfg['workers'] * cfg.get('calls', 1)):
             bad.append((f'C03|queue-not-empty|{_shape(cfg)}', f"queue (items, unfinished) = {que} at return"))
     for thr in exe.rt.threads:
         if thr.crashed is not None and thr is not exe.rt.main:
@@ -208,7 +210,7 @@ def oracle(exe, cfg):
                                 f'{name} started, {dname} is DONE but its update is not (fully) readable: '
                                 f'entry={ent!r} glob={glob!r}'))
     # ---- C02: final status map and execution counts equal the reference
-    if 'init' not in cfg or not cfg['init']:
+    if ('init' not in cfg or not cfg['init']) and cfg.get('calls', 1) == 1:
         final, count = reference(cfg)
         if final is not None and kind == 'quiescent' and 'env' in har.res:
             env = har.env.dictionary
@@ -233,4 +235,6 @@ def _shape(cfg):
         extra = '|init=' + ','.join(sorted(set(s for _, s, _ in cfg['init'])))
     if cfg.get('cyclic'):
         extra += '|cyclic'
+    if cfg.get('calls', 1) > 1:
+        extra += f"|calls={cfg['calls']}"
     return f"n{cfg['n']}|{kinds}|{outs}|w{cfg['workers']}{extra}"
